@@ -158,6 +158,28 @@ func r20msg(c *core.Ctx) {
 	c.Floor(R, n, 1)
 }
 
+// trustedImmutableGlobal: trustedImmutableKind, and tables of functions: an array or slice whose
+// elements are functions without captured variables, set once by the initialiser (a function value
+// has no contents to change; what could change is the table, and nothing writes it).
+func trustedImmutableGlobal(g *ssa.Global, t types.Type) (bool, string) {
+	if ok, why := trustedImmutableKind(t); ok {
+		return ok, why
+	}
+	var et types.Type
+	switch u := t.Underlying().(type) {
+	case *types.Array:
+		et = u.Elem()
+	case *types.Slice:
+		et = u.Elem()
+	}
+	if et != nil {
+		if _, isSig := et.Underlying().(*types.Signature); isSig && core.ConstTable(g) {
+			return true, "table of plain functions, written by its initialiser only"
+		}
+	}
+	return false, ""
+}
+
 func trustedImmutableKind(t types.Type) (bool, string) {
 	if p, ok := t.(*types.Pointer); ok {
 		if n, ok := p.Elem().(*types.Named); ok && n.Obj().Pkg() != nil && n.Obj().Pkg().Path() == "github.com/sirupsen/logrus" {
@@ -177,6 +199,11 @@ func trustedImmutableKind(t types.Type) (bool, string) {
 	case *types.Array:
 		if _, ok := u.Elem().Underlying().(*types.Basic); ok {
 			return true, "array of scalars"
+		}
+		if _, isArr := u.Elem().Underlying().(*types.Array); isArr {
+			if ok, _ := trustedImmutableKind(u.Elem()); ok {
+				return true, "array of arrays of scalars"
+			}
 		}
 	case *types.Slice:
 		if _, ok := u.Elem().Underlying().(*types.Basic); ok {
@@ -265,7 +292,7 @@ func r20state(c *core.Ctx) {
 			pos = p
 		}
 		sort.Strings(ws)
-		okKind, kind := trustedImmutableKind(elem)
+		okKind, kind := trustedImmutableGlobal(i.g, elem)
 		// reachable escapes (address handed to callee) also count even if found only in reachable functions
 		switch {
 		case len(ws) > 0:
@@ -567,7 +594,7 @@ func pureState(c *core.Ctx, R, what string, entries []*ssa.Function, allow map[s
 		if len(rs) > 4 {
 			rs = append(rs[:4], fmt.Sprintf("… %d more", len(rs)-4))
 		}
-		okKind, kind := trustedImmutableKind(elem)
+		okKind, kind := trustedImmutableGlobal(i.g, elem)
 		if w, allowed := allow[name]; allowed {
 			bad := ""
 			for _, x := range ws {
